@@ -377,7 +377,7 @@ def parse (s : List Char) : Nat → P
 
 `parseAction` (a list) and `callDuringTry` (a flag) are attributes of the element; the operations that change them
 are `set_parse_action` (core.py:700-711), `add_parse_action` (core.py:719-724), `add_condition` (core.py:748-761),
-`set_parse_action(None)` (core.py:700-702) and `copy()` / `expr("name")` (core.py:536-547, both keep them).
+`set_parse_action(None)` (core.py:700-703) and `copy()` / `expr("name")` (core.py:536-547, both keep them).
 The gate of `_parseNoCache` (core.py:870) reads the attributes as they are when the element is matched, so an
 element built through a history of operations is `E.act` with the configuration the history ends in. -/
 
@@ -405,7 +405,7 @@ def applyOp (c : ACfg) : Op → ACfg
   | .setAct as k => ⟨as, kw k⟩                      -- parseAction[:] = …; callDuringTry = kwargs.get(…)
   | .addAct as k => ⟨c.acts ++ as, c.cdt || kw k⟩   -- parseAction += …;  callDuringTry = callDuringTry or kwargs.get(…)
   | .addCond as k => ⟨c.acts ++ as, c.cdt || kw k⟩
-  | .clear => ⟨[], c.cdt⟩                           -- parseAction.clear(); return self   (the flag is not touched)
+  | .clear => ⟨[], false⟩                           -- parseAction.clear(); callDuringTry = False; return self
   | .copy => c
 
 def runOpsFrom (c : ACfg) (ops : List Op) : ACfg := ops.foldl applyOp c
